@@ -138,7 +138,7 @@ func runC09(c *Ctx) {
 		maxPat, maxPath = 4, 5
 	}
 	c.Exhaustive = true
-	c.Rule = fmt.Sprintf("all patterns of the segment grammar (literal | placeholder | trailing /*) with <= %d segments over {a, b, empty, id, x} x all paths with <= %d segments over {a, b, 1, empty} (plus query strings for keyMatch5), for keyMatch2/3/4/5 and keyGet2/3 (after regexMatch has been called on every pattern text and on its regex translation: the answers must not depend on what was called before), against the Lean model (rendered pattern text) and the Lean segment semantics (bounded-exhaustive); raw pattern strings over {/ a : { } * ? .} for the boundary of the modelled regex fragment; keyMatch/keyGet over all short strings; random IPv4 and IPv6 addresses/CIDRs incl. boundary prefix lengths and malformed text; request paths with percent escapes, a leading //, several ? and a fragment against literal, placeholder and wildcard patterns (paths are taken literally); every call is also made through the function registered under the built-in's name in model.LoadFunctionMap() (what a matcher calls) and must give the same answer; IPv6 on the implementation only: every address against four spellings of a second address (as given, upper case, all groups written out, leading zeros), as a single address and as its /128, against net.IP equality; every IPv4 address also in its IPv4-mapped spelling (::ffff:a.b.c.d) and every IPv4 prefix as the mapped /96+n prefix: same answers; non-trivial = a pattern with a placeholder or wildcard on which some path matches and some does not; distinct = (function, pattern)", maxPat, maxPath)
+	c.Rule = fmt.Sprintf("all patterns of the segment grammar (literal | placeholder | trailing /*) with <= %d segments over {a, b, empty, id, x} x all paths with <= %d segments over {a, b, 1, empty} (plus query strings for keyMatch5), for keyMatch2/3/4/5 and keyGet2/3 (after regexMatch has been called on every pattern text and on its regex translation: the answers must not depend on what was called before), against the Lean model (rendered pattern text) and the Lean segment semantics (bounded-exhaustive); all raw pattern strings of length <= %d over {/ a b : { } * ? .} against 10 probe paths, for keyMatch, keyGet and keyMatch2-5 (the boundary of the modelled regex fragment); random IPv4 and IPv6 addresses/CIDRs incl. boundary prefix lengths and malformed text; request paths with percent escapes, a leading //, several ? and a fragment against literal, placeholder and wildcard patterns (paths are taken literally); every call is also made through the function registered under the built-in's name in model.LoadFunctionMap() (what a matcher calls) and must give the same answer; IPv6 on the implementation only: every address against four spellings of a second address (as given, upper case, all groups written out, leading zeros), as a single address and as its /128, against net.IP equality; every IPv4 address also in its IPv4-mapped spelling (::ffff:a.b.c.d) and every IPv4 prefix as the mapped /96+n prefix: same answers; non-trivial = a pattern with a placeholder or wildcard on which some path matches and some does not; distinct = (function, pattern)", maxPat, maxPath, map[bool]int{false: 3, true: 5}[c.Thorough()])
 	segAlpha := []pseg{{false, "a"}, {false, "b"}, {false, ""}, {true, "id"}, {true, "x"}}
 	var patterns [][]pseg
 	var recP func(cur []pseg)
